@@ -3,6 +3,8 @@ package main
 import (
 	"encoding/json"
 	"flag"
+	"fmt"
+	"os"
 	"reflect"
 	"sort"
 	"strconv"
@@ -16,6 +18,9 @@ import (
 )
 
 // ---- worlds of UcfgVarExp ---------------------------------------------------------------
+
+// osEnvSet: the process-environment variables the current world's ResolveEnv resolver knows
+var osEnvSet = map[string]bool{}
 
 type vexpr struct {
 	T  string   `json:"t"`
@@ -137,6 +142,10 @@ func (w *vworld) build(wo vworldOpts) (*ucfg.Config, []ucfg.Option, error) {
 	base := []ucfg.Option{ucfg.PathSep("."), ucfg.VarExp}
 	var c *ucfg.Config
 	var err error
+	for k := range osEnvSet { // the process environment of the previous world
+		os.Unsetenv(k)
+		delete(osEnvSet, k)
+	}
 	if wo.Split == 0 {
 		c, err = ucfg.NewFrom(w.Root.toGo(), base...)
 	} else {
@@ -167,6 +176,26 @@ func (w *vworld) build(wo vworldOpts) (*ucfg.Config, []ucfg.Option, error) {
 	for _, raw := range w.Res {
 		known := map[string]string{}
 		if len(raw) > 0 && raw[0] == '{' {
+			// the two built-in resolvers: {"kind":"noop"} and {"kind":"osenv","tab":{name: text}}
+			var kinded struct {
+				Kind string            `json:"kind"`
+				Tab  map[string]string `json:"tab"`
+			}
+			if json.Unmarshal(raw, &kinded) == nil && kinded.Kind != "" {
+				switch kinded.Kind {
+				case "noop":
+					opts = append(opts, ucfg.ResolveNOOP)
+				case "osenv":
+					for k, v := range kinded.Tab {
+						os.Setenv(k, v)
+						osEnvSet[k] = true
+					}
+					opts = append(opts, ucfg.ResolveEnv)
+				default:
+					return nil, nil, fmt.Errorf("unknown resolver kind %q", kinded.Kind)
+				}
+				continue
+			}
 			json.Unmarshal(raw, &known)
 		}
 		opts = append(opts, ucfg.Resolve(func(name string) (string, parse.Config, error) {
@@ -313,6 +342,8 @@ func observeWorld(w *vworld, withFlat bool, wo vworldOpts) (o varObs) {
 				t = reflect.TypeOf("")
 			case "slice":
 				t = reflect.SliceOf(tIface)
+			case "duration":
+				t = reflect.TypeOf(time.Duration(0))
 			}
 			sf = append(sf, reflect.StructField{Name: "F" + strconv.Itoa(i), Type: t, Tag: reflect.StructTag(`config:"` + f.N + `"`)})
 		}
@@ -322,6 +353,10 @@ func observeWorld(w *vworld, withFlat bool, wo vworldOpts) (o varObs) {
 		} else {
 			vals := make([]interface{}, len(sf))
 			for i := range sf {
+				if d, isDur := st.Elem().Field(i).Interface().(time.Duration); isDur {
+					vals[i] = "duration:" + d.String()
+					continue
+				}
 				vals[i] = canonGo(st.Elem().Field(i).Interface())
 			}
 			o.Struct = map[string]interface{}{"ok": vals}
@@ -619,9 +654,46 @@ func varReplay(args []string) int {
 					} `json:"ok"`
 					Err  string   `json:"err"`
 					Errs []string `json:"errs"`
+					Per  []struct {
+						Ok   *obs     `json:"ok"`
+						Err  string   `json:"err"`
+						Errs []string `json:"errs"`
+					} `json:"per"`
 				}
 				if json.Unmarshal(exp, &e) != nil {
 					return false
+				}
+				if len(e.Per) > 0 {
+					// per-field results: Unpack visits the fields in declaration order and stops at the first
+					// failing one; a time.Duration field takes the text of its setting as a duration (C03) and
+					// a text that is none fails at that field
+					e.Ok = nil
+					for i, f := range e.Per {
+						g, isErr := o.Struct["err"].(string)
+						if f.Err != "" {
+							if !isErr {
+								return false
+							}
+							for _, x := range f.Errs {
+								if x == g || x == "any" {
+									return true
+								}
+							}
+							return false
+						}
+						if c.Fields[i].T == "duration" && f.Ok != nil {
+							txt, isStr := stripTypes(f.Ok.canon()).(string)
+							if !isStr {
+								return false // the universe holds texts only
+							}
+							if _, perr := time.ParseDuration(txt); perr != nil {
+								return isErr && strings.Contains(g, "duration")
+							}
+						}
+						e.Ok = append(e.Ok, struct {
+							Ok *obs `json:"ok"`
+						}{f.Ok})
+					}
 				}
 				if e.Err != "" {
 					g, isErr := o.Struct["err"].(string)
@@ -643,6 +715,16 @@ func varReplay(args []string) int {
 					var want interface{}
 					if w.Ok != nil {
 						want = w.Ok.canon()
+					}
+					if c.Fields[i].T == "duration" {
+						d := time.Duration(0)
+						if want != nil {
+							d, _ = time.ParseDuration(stripTypes(want).(string))
+						}
+						if vals[i] != "duration:"+d.String() {
+							return false
+						}
+						continue
 					}
 					if c.Fields[i].T == "slice" && want != nil {
 						if _, isList := want.([]interface{}); !isList {
